@@ -70,7 +70,7 @@ Fixpoint related (p q : list field) : bool :=
 Definition op_addr (o : popts) (h : option (string * Z)) (p : op) : option (list field) :=
   let pre := match h with Some (hn, hi) => addr o hn hi | None => [] end in
   match p with
-  | OpSet n i _ | OpSetChild n i _ _ | OpRemove n i => Some (pre ++ addr o n i)
+  | OpSet n i _ | OpSetChild n i _ _ | OpSetChildNil n i | OpRemove n i => Some (pre ++ addr o n i)
   | OpMerge _ _ => None
   end.
 
